@@ -1137,6 +1137,8 @@ def _finalize_std(df, count_column, sum_column, sum2_column, **kwargs):
 
 def _cum_agg_aligned(part, cum_last, index, columns, func, initial):
     align = cum_last.reindex(part.set_index(index).index, fill_value=initial)
+    # a group without a valid value so far (``last`` skips them) starts afresh
+    align = align.fillna(initial)
     align.index = part.index
     return func(part[columns], align)
 
